@@ -637,7 +637,15 @@ class CausalInference(object):
                     },
                 )
         else:
-            p_z = infer.query(adjustment_set, evidence=evidence, show_progress=False)
+            p_z = infer.query(adjustment_set, show_progress=False)
+
+        # Evidence outside the adjustment set is an additional outcome:
+        # p(variables, e | do) = \sum_{z} p(variables, e | do, z) p(z)
+        evidence_rest = [
+            (var, state)
+            for var, state in evidence.items()
+            if var not in adjustment_set and var not in do
+        ]
 
         adj_states = []
         for var in adjustment_set:
@@ -654,9 +662,13 @@ class CausalInference(object):
             adj_evidence = {
                 var: state for var, state in zip(adjustment_set, state_comb)
             }
-            evidence = {**do, **adj_evidence}
+            p_vars = infer.query(
+                variables + [var for var, _ in evidence_rest],
+                evidence={**do, **adj_evidence},
+                show_progress=False,
+            )
             values.append(
-                infer.query(variables, evidence=evidence, show_progress=False)
+                p_vars.reduce(evidence_rest, inplace=False)
                 * p_z.get_value(**adj_evidence)
             )
 
